@@ -21,6 +21,8 @@ every trie state, collapse level and hash function:
 import Verif.Lemmas.WmptOps
 import Verif.Lemmas.WmptRollback
 import Verif.Lemmas.WmptSpec
+import Verif.Model.WmptHistory
+import Verif.Model.WmptToy
 namespace Verif.Props.C13
 open Verif.Wmpt
 
@@ -98,5 +100,21 @@ theorem C13_checkpoint_answers (H : Bytes → Bytes) (hlen : ∀ x, (H x).length
   rw [owner_eq_ownerSpec t0 b hb1 hb] at ho
   refine ⟨k, v, ho, ?_, hv⟩
   rw [hr]; exact hp'
+
+set_option maxRecDepth 1000000 in
+/-- the scenario is realisable (toy hash, `decide`): checkpoint {A ↦ x, D ↦ y} committed; SaveRoot; a same-value re-write
+    of A (the case that used to destroy the checkpoint), a new value for D, a new key; Commit 1; Rollback ⇒ the trie shows
+    the checkpoint's weight, answers every block exactly like a trie reopened from the checkpoint, and its bookkeeping
+    lists are empty -/
+example :
+    let kA : List Nib := List.replicate 64 1
+    let kD : List Nib := 2 :: List.replicate 63 4
+    let kE : List Nib := 2 :: 5 :: List.replicate 62 4
+    let cp : List HOp := [.upd kA [1, 0xee] 2, .upd kD [2, 0xee] 3, .commit (-1)]
+    let ops : List HOp := cp ++ [.saveRoot, .upd kA [1, 0xee] 2, .upd kD [9] 1, .upd kE [3] 4, .commit 1, .rollback]
+    (hrun toyH ops).t.weight = 5 ∧
+      sameAnswers toyH (hrun toyH ops).t (reopen toyH (hrun toyH cp).t) ∧
+      (hrun toyH ops).t.created = [] ∧ (hrun toyH ops).t.tempDeleted = [] ∧ (hrun toyH ops).t.deleted = [] := by
+  decide
 
 end Verif.Props.C13
